@@ -29,3 +29,8 @@ reg("C06", "proof",
 
 FIX_COMMITS = ["c8eaaa2"]
 NOT_YET = {}
+
+reg("C11", "proof",
+    "cross-based cost aggregation: the numba kernels cbca_step_1..4 and cross_support proved against prefix-sum / "
+    "support-region specifications with loop invariants (all image sizes, all arm lengths), including every unchecked "
+    "array access; the numpy glue of cost_volume_aggregation is covered by the bounded stand-in only.")
